@@ -265,7 +265,12 @@ def run(tier, seed):
             c, line, e, g = r['mismatches'][0]
             broken.append('correspondence op `%s` diverges on %d inputs; first %r: impl=%s model=%s' % (
                 name, r['n_mismatch'], c[1:], e[:100], g[:100]))
+    # how much of the escaping code do the inputs execute (a measurement, not a verdict)
+    coverage_lines = lib.modelled_code_coverage([('css_parser.serialize', '_escapecss'), ('css_parser.serialize', 'CSSSerializer.do_CSSStyleSheet')],
+                                                [lambda c=c: esc_py(c) for c in ec[::max(1, len(ec) // 300)]] +
+                                                [lambda c=c: oracle(c) for c in cases[::max(1, len(cases) // 200)]], limit=600)
     coverage = {
+        'modelled_code_line_coverage': coverage_lines,
         'evaluations': res['n'] + resE['n'] + resU['n'],
         'distinct_nontrivial': len(set(cases)) + len(set(ec)) + len(set(uc)),
         'rule': '19 positions that can hold a non-ASCII character (comment, type/class/id selector, attribute value, property '
